@@ -301,6 +301,10 @@ def sc_linear_E(V, P, cfg, chk=None):
         return np.asarray(m.elmat)
     K1 = elmat(one, one)
     K2 = elmat(E, uz)
+    if cfg.get("repeat"):
+        # further modules built in the same process with the same material (and thickness): same element matrix
+        K2 = elmat(E, uz)
+        K2 = elmat(E, uz)
     fac = E if dim == 3 else E * uz
     chk.arrays_eq("elmat-linear", K2, fac * K1 if not V.symbolic else np.array(
         [[fac * K1[i, j] for j in range(K1.shape[1])] for i in range(K1.shape[0])], dtype=object), "elmat-linear-in-E")
@@ -373,6 +377,7 @@ def items(tier):
     # --- linearity of K_e in E and thickness
     for dim, pl in ((2, "strain"), (2, "stress"), (3, "strain")):
         out.append(dict(kind="linear-E", id="elmat-linear-%dd-%s" % (dim, pl), dim=dim, plane=pl))
+        out.append(dict(kind="linear-E", id="elmat-linear-%dd-%s-third-construction" % (dim, pl), dim=dim, plane=pl, repeat=True))
     # --- PSD on the rational grid
     for pl in ("strain", "stress"):
         for nu in _NUS:
